@@ -11,10 +11,14 @@ def signature(msg, case_lines):
     return m.group(1) if m else "?"
 
 
-# harness args after the seed: <ncases> <ncycles> <mode>; mode bits: 1 = arbitrary stall conditions,
-# 2 = regDownstreamBlocking may feed a stage whose ready waits for valid, 4 = reduceWidth may be followed by delay(n>=1).
-# mode 0 stays inside the preconditions of the theorems; the other streams are kept because the property statement makes no
-# such exception (they report law:stall / undelivered:dsb>red / seq:red>dly on the unchanged tree).
+# harness args after the seed: <ncases> <ncycles> <mode>; mode bits:
+# 1 = arbitrary stall conditions (default: they do not rise while a beat is offered and not taken). The property demands the
+#     output law of every listed stage for every schedule, strm::stall does not keep it: known finding, signature `law:stall`
+#     (reserved by the driver for exactly that shape; any other output-law failure has another signature).
+# 2 = regDownstreamBlocking may feed a stage whose ready waits for valid (-> reduceWidth): such chains can get stuck for good.
+#     Eventual delivery is not part of C16's statement: the driver counts these as observations (`obs` in the evidence);
+#     beats that are *lost* (everything idle, emitted < specified) are a PROPFAIL `lost:<stage>` in every stream.
+# 4 = mostly chains with reduceWidth directly followed by delay(n>=1) (finding F5, fixed in /repo 553e604; must stay green).
 vlib.standard_check({
     "prop": "C16",
     "lean_modules": ["GateryModel.Properties.C16"],
@@ -22,12 +26,13 @@ vlib.standard_check({
     "prop_module": "GateryModel.Properties.C16",
     "exe": "gv_c16",
     "harness": "c16",
-    "streams": {"quick": [[200, 1000, 0], [40, 300, 1], [40, 300, 2], [40, 300, 4]],
+    "streams": {"quick": [[400, 1000, 0], [60, 400, 1], [60, 400, 2], [100, 400, 4]],
                 "thorough": [[3000, 2000, 0], [600, 8000, 0], [300, 1000, 1], [300, 1000, 2], [300, 1000, 4]]},
     "search": [[1000, 1000, 0], [300, 1000, 7]],
     "signature": signature,
     "eval_key": "ops",
     "nontrivial": lambda t: t.get("transfers_out", 0),
+    "extra_cov": lambda t: {"observations_not_part_of_the_property": t.get("obs", {}), "propfail_signatures": t.get("fails", {})},
     "rule": "random chains (length 1..6) of the real stages regDownstream, regDownstreamBlocking, regReady, regDecouple, delay(0..3), stall, "
             "fifo(minDepth 2..9, latency 0/1/2/3/DontCare), extendWidth(1..4), reduceWidth(1..4) over 4 stream types "
             "(RvStream<UInt>, RvPacketStream<UInt>, +TxId+Error, +Sop+Empty), head width 1..16, random payload and meta signals; "
@@ -43,7 +48,10 @@ vlib.standard_check({
                   "valid/ready/stall schedules obeying the interface law on the input: in-order, unchanged, at-most-once emission, no emission of "
                   "unaccepted beats, output interface law; closed under composition (compose_preserves, chain_preserves by induction). Models tied to "
                   "the C++ generators by cycle-exact differential simulation at every stage boundary of random chains.",
-    "assumptions": ["extendWidth/reduceWidth with reset input tied to '0'; ByteEnable meta signal not exercised",
+    "assumptions": ["eventual delivery (Live/compose_live/chain_live) is proved as an extra under explicit fairness and compatibility side conditions; "
+                    "stuck chains outside them (regDownstreamBlocking feeding reduceWidth) are counted as observations, lost beats are violations",
+                    "stream FIFO liveness (eventual visibility through the latency pipes) is not proved; its safety, output law and conservation are",
+                    "extendWidth/reduceWidth with reset input tied to '0'; ByteEnable meta signal not exercised",
                     "clock-domain-crossing FIFOs, arbiters, field extraction, packet insert/erase outside this property",
                     "stall: output law only under stallOk (condition does not rise while a beat is offered and not taken)"],
 })
